@@ -21,15 +21,21 @@ class Invalid(Exception):
 class St(object):
     """Static description of a stream: item type, may a lifetime be empty,
     is it downstream of take/first."""
-    __slots__ = ('t', 'empty', 'after_take')
+    __slots__ = ('t', 'empty', 'after_take', 'aliased')
 
-    def __init__(self, t, empty=False, after_take=False):
+    def __init__(self, t, empty=False, after_take=False, aliased=False):
         self.t = t
         self.empty = empty
         self.after_take = after_take
+        # aliased: the items are one mutable object that its producer keeps
+        # mutating (streaming scan with an accumulator that mutates and returns
+        # its argument).  Nothing may consume such a stream: whatever retains an
+        # item would see later mutations, which is the user's aliasing, not a
+        # property of rxsci (DESIGN.md, C01/C09).
+        self.aliased = aliased
 
     def copy(self, **kw):
-        s = St(self.t, self.empty, self.after_take)
+        s = St(self.t, self.empty, self.after_take, self.aliased)
         for k, v in kw.items():
             setattr(s, k, v)
         return s
@@ -89,6 +95,8 @@ def check_node(node, st, fl):
     property texts (or a type) is not met."""
     op = node['op']
     t = st.t
+    if st.aliased:
+        raise Invalid('operator after a stream of aliased mutable items')
     if fl.dual and op in MUX_ONLY:
         raise Invalid('mux-only operator in dual program')
     if op in fl.deny or (fl.allow is not None and op not in fl.allow):
@@ -131,7 +139,7 @@ def check_node(node, st, fl):
             ot = 'any'
         if node['seed'] == 'l_fac9' and ot == 'list' and t != 'int':
             ot = 'any'
-        return St(ot, st.empty and not reduce and term is None, st.after_take)
+        return St(ot, st.empty and not reduce and term is None, st.after_take, aliased=a[3] and not reduce)
     if op == 'count':
         return St('int', st.empty and not node.get('reduce'), st.after_take)
     if op in MATH:
@@ -209,7 +217,7 @@ def check_node(node, st, fl):
             ot = outs[0].t
         else:
             ot = 'any'
-        return St(ot, empty, any(o.after_take for o in outs) or st.after_take)
+        return St(ot, empty, any(o.after_take for o in outs) or st.after_take, any(o.aliased for o in outs))
     # ---- multiplexed only ----
     if op == 'distinct':
         key = node.get('key')
@@ -248,7 +256,7 @@ def check_node(node, st, fl):
                 raise Invalid('window key type')
             inner_empty = False
         out = check_pipeline(node['inner'], St(t, inner_empty, False), fl)
-        return St(out.t, st.empty or out.empty, st.after_take)
+        return St(out.t, st.empty or out.empty, st.after_take, out.aliased)
     raise Invalid('unknown operator %r' % (op,))
 
 
